@@ -758,10 +758,12 @@ class TypeBlocks(ContainerOperand):
                                 values = full_for_fill(b.dtype,
                                         index_ic.size,
                                         fill_value)
-                                if b.ndim == 1:
-                                    values[index_ic.iloc_dst] = b[index_ic.iloc_src]
-                                else:
-                                    values[index_ic.iloc_dst] = b[index_ic.iloc_src, block_col]
+                                if index_ic.has_common:
+                                    # with no row label in common iloc_src / iloc_dst are None and would broadcast
+                                    if b.ndim == 1:
+                                        values[index_ic.iloc_dst] = b[index_ic.iloc_src]
+                                    else:
+                                        values[index_ic.iloc_dst] = b[index_ic.iloc_src, block_col]
                                 values.flags.writeable = False
                                 yield values
                         else:
